@@ -396,6 +396,25 @@ def canonical_dump(record: Any, strandless_as_forward: bool = False, bio_record:
                                 motif.leader, motif.core, motif.tail, motif.score, motif.monoisotopic_mass,
                                 motif.molecular_weight, list(motif.alternative_weights), motif.tool])
     structure["prepeptides"] = sorted(prepeptides, key=repr)
+    domains = []
+    for feature in list(record.get_pfam_domains()) + list(record.get_antismash_domains()) + list(record.get_cds_motifs()):
+        if isinstance(feature, Prepeptide):
+            continue
+        go = getattr(feature, "gene_ontologies", None)
+        domains.append({
+            "name": feature.get_name(), "class": type(feature).__name__, "loc": loc(feature.location),
+            "protein": [int(feature.protein_location.start), int(feature.protein_location.end)],
+            "locus_tag": feature.locus_tag, "domain": feature.domain, "tool": feature.tool, "label": feature.label,
+            "detection": feature.detection, "database": feature.database, "score": feature.score,
+            "evalue": feature.evalue, "translation": feature._translation,  # pylint: disable=protected-access
+            "asf": list(feature.asf.hits), "created_by_antismash": feature.created_by_antismash,
+            "identifier": getattr(feature, "identifier", None), "version": getattr(feature, "version", None),
+            "description": getattr(feature, "description", None),
+            "subtypes": list(getattr(feature, "subtypes", []) or []),
+            "specificity": list(getattr(feature, "specificity", []) or []),
+            "go": sorted(go.go_entries.items()) if go else [],
+        })
+    structure["domains"] = sorted(domains, key=lambda item: item["name"])
     structure["domain_names"] = sorted(
         _names(record.get_pfam_domains()) + _names(record.get_antismash_domains()) + _names(record.get_cds_motifs()))
     dump["structure"] = structure
